@@ -279,6 +279,26 @@ def run(chk, tier, seed):
             jobs.append([dfs, "--file", pm, "--show-config", "cat"])
             for o, argv in zip(common.pmap(lambda a: run_patient(a, dfs, dfs_nd, 30), jobs), jobs):
                 events.append(classify(o, argv, "mmbslot", dict(status=st)))
+        # standard output that cannot be written (/dev/full, closed): the outcome alphabet still holds - in particular a failure
+        # status comes with a diagnostic, whichever command noticed and however much it had to write
+        big = discs.build("DFS", [mkdisc.entry("BIG", length=20000, start=100)] + [mkdisc.entry("F%02d" % i_, length=10, start=10 + i_) for i_ in range(30)],
+                          scratch, "bigout", nsectors=800, salt=6, title=b"BIGOUT")
+        ojobs = []
+        for cmd in (["cat"], ["info", "#.*"], ["type", "BIG"], ["type", "F01"], ["dump", "BIG"], ["list", "BIG"], ["sector-map"], ["space"], ["free"], ["show-titles"],
+                    ["help"], ["help", "cat"], ["dump-sector", "0", "1", "1"], ["--show-config", "cat"]):
+            for how in ("full", "closed"):
+                ojobs.append((cmd, how))
+
+        def do_o(job):
+            cmd, how = job
+            argv = [dfs, "--file", big.path] + cmd
+            if how == "full":
+                with open("/dev/full", "wb") as fo:
+                    o = common.run(argv, timeout=30, stdout=fo)
+            else:
+                o = common.run(["sh", "-c", 'exec "$@" >&-', "sh"] + argv, timeout=30)
+            return classify(o, argv, "stdout-" + how, dict(cmd=cmd))
+        events += common.pmap(do_o, ojobs)
         # command lines
         okimg = discs.build("DFS", [mkdisc.entry("A", length=300, start=5)], scratch, "ok", nsectors=400, salt=3, title=b"OKIMG")
         files = dict(ok=okimg.path, missing=os.path.join(scratch, "missing.ssd"), noext=os.path.join(scratch, "noext"),
